@@ -36,8 +36,9 @@ CHECKS = {
         text="For every binary tree on <= 5 leaves, every subset of the triples on <= 4 leaves and seeded sets on 5-6 leaves, z3 decides on a declarative "
              "clade specification that all_trees_from_triples returns exactly the displaying binary trees (each a model, none repeated, none missing) "
              "and that tree_from_triples / supertree return a displaying tree on exactly the union of the leaves iff the specification is satisfiable "
-             "(input trees down to two leaves). The disjoint-set structure is "
-             "enumerated exhaustively over union histories and over a single operation from every forest state (stated as enumeration).",
+             "(input trees down to two leaves; list, iterator and generator arguments; Newick-special characters in labels). The disjoint-set structure is "
+             "enumerated exhaustively over union histories and over a single operation from every forest state, plus seeded merge histories on "
+             "9-14 elements (stated as enumeration).",
         design="5/C20", engine="forksym",
         note="Trusted: z3 Boolean / pseudo-Boolean solving, engine/oracles/clades.py; trees and triple sets are enumerated, output sets decided by the solver."),
     "C13": dict(
@@ -150,7 +151,8 @@ CHECKS = {
              "(standalone entries, cells of 1-3 dimensional tables) every feasible value ordering of the real update/combine code is explored "
              "and z3 proves value and tags equal to the specification; a single-update inductive step from an arbitrary invariant-satisfying "
              "pre-state extends the claim to histories of any length. Half of the multi-batch histories are 'watched' (every observer read after "
-             "every batch; info/iteration/len must agree with infos); combine receivers include cells written with an untagged candidate.",
+             "every batch; info/iteration/len must agree with infos); combine receivers include cells written with an untagged candidate; an aliasing section covers an entry built from another entry's "
+             "value()/infos() and two kept proxies of one unwritten cell.",
         design="5/C16", engine="forksym"),
     "C06": dict(
         technique="bounded symbolic execution (affine costs, z3 LIA) of the cost evaluator vs. independent recount",
